@@ -1,6 +1,6 @@
 /-
 General fact about `groupBy` (toolz.groupby): on a list whose equal-key elements are contiguous the
-groups are the runs of the list. Used by C07 (slices of a sorted triangle) .
+groups are the runs of the list. Used by C07 (slices of a sorted triangle) and C14 (rows of a cell are one group).
 -/
 import Bermuda.Model.Ops
 namespace Bermuda
@@ -129,5 +129,73 @@ theorem groupBy_contiguous (key : α → κ) (l : List α)
     { flat := rfl, nodup := List.nodup_nil, mem := fun p hp => (nomatch hp), last := fun h => absurd rfl h }
     (by simpa using hc)
   simpa [groupBy_eq_foldl] using this
+
+theorem foldl_groupStep_same (key : α → κ) (k : κ) (acc : List (κ × List α))
+    (hk : k ∉ acc.map (·.1)) : ∀ (xs g : List α), (∀ x ∈ xs, key x = k) →
+    xs.foldl (groupStep key) (acc ++ [(k, g)]) = acc ++ [(k, g ++ xs)]
+  | [], g, _ => by simp
+  | x :: xs, g, h => by
+    have hx : key x = k := h x List.mem_cons_self
+    rw [List.foldl_cons]
+    have hstep : groupStep key (acc ++ [(k, g)]) x = acc ++ [(k, g ++ [x])] := by
+      unfold groupStep
+      rw [hx]
+      have hany : (acc ++ [(k, g)]).any (·.1 == k) = true := by simp
+      rw [if_pos hany, List.map_append]
+      congr 1
+      · conv => rhs; rw [← List.map_id acc]
+        apply List.map_congr_left
+        intro p hp
+        have : (p.1 == k) = false := by
+          apply beq_false_of_ne
+          intro he; exact hk (he ▸ List.mem_map_of_mem hp)
+        simp [this]
+      · simp
+    rw [hstep, foldl_groupStep_same key k acc hk xs (g ++ [x]) (fun y hy => h y (List.mem_cons_of_mem _ hy))]
+    simp
+
+theorem foldl_groupStep_block (key : α → κ) (k : κ) (acc : List (κ × List α))
+    (hk : k ∉ acc.map (·.1)) (b : List α) (hne : b ≠ []) (hb : ∀ x ∈ b, key x = k) :
+    b.foldl (groupStep key) acc = acc ++ [(k, b)] := by
+  cases b with
+  | nil => exact absurd rfl hne
+  | cons x xs =>
+    have hx : key x = k := hb x List.mem_cons_self
+    rw [List.foldl_cons]
+    have hstep : groupStep key acc x = acc ++ [(k, [x])] := by
+      unfold groupStep
+      rw [hx]
+      have hany : ¬ (acc.any (·.1 == k) = true) := by
+        intro h
+        obtain ⟨p, hp, hpk⟩ := List.any_eq_true.mp h
+        exact hk (List.mem_map.mpr ⟨p, hp, by simpa using hpk⟩)
+      rw [if_neg hany]
+    rw [hstep, foldl_groupStep_same key k acc hk xs [x] (fun y hy => hb y (List.mem_cons_of_mem _ hy))]
+    rfl
+
+/-- grouping the concatenation of non-empty blocks with distinct constant keys gives the blocks -/
+theorem foldl_groupStep_blocks (key : α → κ) : ∀ (blocks acc : List (κ × List α)),
+    ((acc ++ blocks).map (·.1)).Nodup → (∀ b ∈ blocks, b.2 ≠ []) →
+    (∀ b ∈ blocks, ∀ x ∈ b.2, key x = b.1) →
+    (blocks.map (·.2)).flatten.foldl (groupStep key) acc = acc ++ blocks
+  | [], acc, _, _, _ => by simp
+  | b :: rest, acc, hnd, hne, hk => by
+    rw [List.map_cons, List.flatten_cons, List.foldl_append]
+    have hb : b.1 ∉ acc.map (·.1) := by
+      intro hm
+      rw [List.map_append, List.nodup_append] at hnd
+      exact hnd.2.2 b.1 hm b.1 (by simp) rfl
+    rw [foldl_groupStep_block key b.1 acc hb b.2 (hne b List.mem_cons_self) (hk b List.mem_cons_self)]
+    rw [foldl_groupStep_blocks key rest (acc ++ [(b.1, b.2)]) (by simpa [List.append_assoc] using hnd)
+      (fun x hx => hne x (List.mem_cons_of_mem _ hx)) (fun x hx => hk x (List.mem_cons_of_mem _ hx))]
+    simp
+
+theorem groupBy_blocks (key : α → κ) (blocks : List (κ × List α))
+    (hnd : (blocks.map (·.1)).Nodup) (hne : ∀ b ∈ blocks, b.2 ≠ [])
+    (hk : ∀ b ∈ blocks, ∀ x ∈ b.2, key x = b.1) :
+    groupBy key (blocks.map (·.2)).flatten = blocks := by
+  rw [groupBy_eq_foldl, foldl_groupStep_blocks key blocks [] (by simpa using hnd) hne hk]
+  rfl
+
 
 end Bermuda
